@@ -101,3 +101,6 @@ func sortStrings(a []string) {
 		}
 	}
 }
+
+// VerifC06GeneratePath is generatePath (how a VirtualServer route path is written after  location ).
+func VerifC06GeneratePath(path string) string { return generatePath(path) }
